@@ -948,7 +948,7 @@ func (r *seqRun) step(i int, op Op) {
 			// a guard that does not match must refuse the request and change nothing
 			e = expect{ok: false}
 			r.o.Checks++
-			if base != nil && base.kind == mFile && !r.readOnly && res.Status != nfsclient.NFS3ERR_NOT_SYNC {
+			if base != nil && base.kind == mFile && !r.readOnly && res.Status != nfsclient.NFS3ERR_NOT_SYNC && !(r.faulted() && res.Status != 0) {
 				r.vio("C01.guard-mismatch-not-refused", fmt.Sprintf("status=%d", res.Status), "%s: SETATTR with a sattrguard3 ctime that does not match got %s, want NFS3ERR_NOT_SYNC", name, nfsclient.NFSStatName(res.Status))
 				e = expect{either: true}
 			}
@@ -1353,8 +1353,17 @@ func (r *seqRun) stepCreate(name string, op Op, hr handleRef, base *mnode, res *
 		if sizeSet && got {
 			cn.file.truncate(*op.SA.Size)
 		} else if sizeSet && r.faulted() {
-			// the request set size explicitly and failed under an injected fault after or before the
-			// truncation: either content is acceptable; realign with the backend
+			// the request set size explicitly and failed under an injected fault before or after the
+			// truncation: the file must still be there, with its old content or the old content resized
+			c := &fileModel{}
+			c.write(0, before)
+			c.truncate(*op.SA.Size)
+			resized := c.read(0, minU64(c.size, 1<<16))
+			if n := r.w.FS.Lookup(child); n == nil || n.Kind != simfs.KindFile {
+				r.vio("C03.existing-file-data-destroyed", fmt.Sprintf("how=%d,replied_ok=%v,file-gone", op.How, got), "%s: CREATE (how=%d) of existing file %q failed under an injected backend error and the file is gone", name, op.How, child)
+			} else if beforeSize <= 1<<16 && !(uint64(nowSize) == beforeSize && eqBytes(now, before)) && !(uint64(nowSize) == c.size && eqBytes(now, resized)) {
+				r.vio("C03.existing-file-data-destroyed", fmt.Sprintf("how=%d,replied_ok=%v,size-set", op.How, got), "%s: CREATE (how=%d, size=%d) of existing file %q failed under an injected backend error and left neither the old content nor the old content resized (size %d -> %d)", name, op.How, *op.SA.Size, child, beforeSize, nowSize)
+			}
 			r.diverged = true
 		} else {
 			if uint64(nowSize) != beforeSize || !eqBytes(now, before) {
